@@ -330,6 +330,8 @@ func ghostSort(fc *FnCtx, v string) string {
 	switch v {
 	case "bool":
 		return "Bool"
+	case "str":
+		return "Str"
 	default:
 		return "Int"
 	}
@@ -341,6 +343,8 @@ func ghostType(v string) types.Type {
 		return tBool
 	case "ref", "set":
 		return types.Typ[types.UnsafePointer]
+	case "str":
+		return tString
 	default:
 		return tInt
 	}
@@ -1251,6 +1255,27 @@ func (e *Env) cleanParts(ref string, stT types.Type) [][2]string {
 			}
 			v := fc.load(e.state, a, f.Type())
 			cs = append(cs, sEq(v.Sub[2].S, fc.m.intConstI(0, tInt)))
+		case "capzero":
+			// an emptied slice whose whole capacity holds zero values (so that re-slicing it up exposes nothing stale)
+			sl, ok := f.Type().Underlying().(*types.Slice)
+			if !ok || (kindOf(sl.Elem()) != KBool && kindOf(sl.Elem()) != KInt) {
+				e.errorf("clean %s.%s: capzero needs a slice of scalars", structName(stT), f.Name())
+				continue
+			}
+			v := fc.load(e.state, a, f.Type())
+			n := "E!" + typeKey(sl.Elem())
+			fc.regArr(n, "(Array Int (Array "+fc.m.idxSort()+" "+fc.m.scalarSort(sl.Elem())+"))")
+			q := "q!cz"
+			row := sx("select", e.state.get(n), v.Sub[0].S)
+			addOp := "+"
+			if fc.m.mode == ModeBV {
+				addOp = "bvadd"
+			}
+			cell := sx("select", row, sx(addOp, v.Sub[1].S, q))
+			zero := fc.zeroVal(sl.Elem()).S
+			cs = append(cs, sEq(v.Sub[2].S, fc.m.intConstI(0, tInt)))
+			cs = append(cs, fmt.Sprintf("(forall ((%s %s)) (! (=> (and %s %s) (= %s %s)) :pattern (%s)))", q, fc.m.idxSort(),
+				fc.m.cmp(token.LEQ, fc.m.intConstI(0, tInt), q, tInt), fc.m.cmp(token.LSS, q, v.Sub[3].S, tInt), cell, zero, cell))
 		case "empty":
 			v := fc.load(e.state, a, f.Type())
 			fc.regArr("G!maplen", "(Array Int Int)")
